@@ -109,6 +109,32 @@ impl<'ast> Visit<'ast> for LoopFinder {
                 }
             }
         }
+        // D19: for (I, P) in X.iter().enumerate().take(A).skip(B) { ... }
+        if let (syn::Pat::Tuple(pt), syn::Expr::MethodCall(sk)) = (&*e.pat, &*e.expr) {
+            if sk.method == "skip" && sk.args.len() == 1 && pt.elems.len() == 2 {
+                if let syn::Expr::MethodCall(tk) = &*sk.receiver {
+                    if tk.method == "take" && tk.args.len() == 1 {
+                        if let syn::Expr::MethodCall(en) = &*tk.receiver {
+                            if en.method == "enumerate" && en.args.is_empty() {
+                                if let (syn::Expr::MethodCall(it), syn::Pat::Ident(_), syn::Pat::Ident(_)) = (&*en.receiver, &pt.elems[0], &pt.elems[1]) {
+                                    if it.method == "iter" && it.args.is_empty() {
+                                        let recv = it.receiver.span().byte_range();
+                                        let p0 = pt.elems[0].span().byte_range();
+                                        let p1 = pt.elems[1].span().byte_range();
+                                        let ta = tk.args[0].span().byte_range();
+                                        let sa = sk.args[0].span().byte_range();
+                                        self.vd.push(format!(
+                                            "{{\"rule\":\"D19\",\"call\":[{},{}],\"recv\":[{},{}],\"idx\":[{},{}],\"pat\":[{},{}],\"take\":[{},{}],\"skip\":[{},{}]}}",
+                                            s.start, b.start + 1, recv.start, recv.end, p0.start, p0.end, p1.start, p1.end, ta.start, ta.end, sa.start, sa.end
+                                        ));
+                                    }
+                                }
+                            }
+                        }
+                    }
+                }
+            }
+        }
         // D14: for PAT in X.iter().copied() { ... }
         if let syn::Expr::MethodCall(cp) = &*e.expr {
             if cp.method == "copied" && cp.args.is_empty() {
@@ -125,6 +151,29 @@ impl<'ast> Visit<'ast> for LoopFinder {
             }
         }
         syn::visit::visit_expr_for_loop(self, e);
+    }
+    fn visit_local(&mut self, l: &'ast syn::Local) {
+        // D18: let _ = V.splice(LO..HI, ARG);   (the Splice iterator is dropped at once: the range is replaced by ARG)
+        if let (syn::Pat::Wild(_), Some(init)) = (&l.pat, &l.init) {
+            if let (syn::Expr::MethodCall(sp), None) = (&*init.expr, &init.diverge) {
+                if sp.method == "splice" && sp.args.len() == 2 {
+                    if let syn::Expr::Range(rg) = &sp.args[0] {
+                        if let (Some(lo), Some(hi), syn::RangeLimits::HalfOpen(_)) = (&rg.start, &rg.end, &rg.limits) {
+                            let st = l.span().byte_range();
+                            let recv = sp.receiver.span().byte_range();
+                            let lo = lo.span().byte_range();
+                            let hi = hi.span().byte_range();
+                            let arg = sp.args[1].span().byte_range();
+                            self.vd.push(format!(
+                                "{{\"rule\":\"D18\",\"call\":[{},{}],\"recv\":[{},{}],\"lo\":[{},{}],\"hi\":[{},{}],\"arg\":[{},{}]}}",
+                                st.start, st.end, recv.start, recv.end, lo.start, lo.end, hi.start, hi.end, arg.start, arg.end
+                            ));
+                        }
+                    }
+                }
+            }
+        }
+        syn::visit::visit_local(self, l);
     }
     fn visit_expr_loop(&mut self, e: &'ast syn::ExprLoop) {
         let s = e.span().byte_range();
